@@ -14,7 +14,8 @@
 """
 import json, os, re, shutil, subprocess, sys, time
 
-ENV = dict(os.environ, GOFLAGS="-mod=mod", GOPROXY="off", GOSUMDB="off", GOTOOLCHAIN="local")
+ENV = dict(os.environ, GOFLAGS="-mod=mod", GOPROXY="off", GOSUMDB="off", GOTOOLCHAIN="local",
+           VERIF_EVIDENCE_DIR="/tmp/verif-wave-evidence")  # /verif/evidence is for runs on the unchanged tree only
 VERIF = "/verif"
 
 
